@@ -22,7 +22,7 @@ import propkit
 import vlib
 
 MANIFEST = {
-  "text": "proof: over R. (1) nearest_fold: the Gallina copy of kernel _ray's running minimum (init MJ_MAXVAL/-1, negative distance -> MJ_MAXVAL, strict `<` update, -1 iff nothing below MJ_MAXVAL) returns, for geom lists of any length, the minimum distance among geoms with 0 <= d < 1e10 and the LOWEST geom id attaining it, (-1,-1,0) if none; the result is independent of the block size (tile_argmin = first minimum); _ray_bvh's / cast_ray's rule returns the same minimum for any visiting order; the triple equals mj_ray's rule when no distance reaches 1e10. (2) eliminate_rule on the translated _ray_eliminate = the property's sentence. (3) the kernel model over the translated _ray_geom_mesh returns the nearest non-eliminated hit. (4) translated _ray_quad / ray_sphere / ray_plane: returned x >= 0 lies on the surface, is the smallest non-negative root, normal is the outward unit normal / plane normal; -1 only below the 1e-15 discriminant threshold or without a root. (5) bvh_equals_brute_partial: abstract tree traversal that prunes only boxes missed or entered no nearer than the current best returns the brute-force minimum (Warp's BVH builtins are not in /repo: abstract model). (6) _ray_bvh's primitive->geom map with the per-world stride ngeom+nflexgeom (repaired in /repo ae9ede3) denotes exactly the enabled geoms in every world; _orthogonal_basis of the normalised direction (repaired in 8617230) is an orthonormal pair orthogonal to any non-zero direction; ray_ellipsoid in the local frame (partial). tested only: float32 rounding; ray_capsule/cylinder/box/mesh/hfield geometry (T-validation + mj_ray oracle); that the real scene-BVH boxes cover the geoms (BVH-vs-brute oracle: open recorded defects for hfield, infinite planes, mesh back faces, geom groups)",
+  "text": "proof: over R. (1) nearest_fold: the Gallina copy of kernel _ray's running minimum (init MJ_MAXVAL/-1, negative distance -> MJ_MAXVAL, strict `<` update, -1 iff nothing below MJ_MAXVAL) returns, for geom lists of any length, the minimum distance among geoms with 0 <= d < 1e10 and the LOWEST geom id attaining it, (-1,-1,0) if none; the result is independent of the block size (tile_argmin = first minimum); _ray_bvh's / cast_ray's rule returns the same minimum for any visiting order; the triple equals mj_ray's rule when no distance reaches 1e10. (2) eliminate_rule on the translated _ray_eliminate = the property's sentence. (3) the kernel model over the translated _ray_geom_mesh returns the nearest non-eliminated hit. (4) translated _ray_quad / ray_sphere / ray_plane: returned x >= 0 lies on the surface, is the smallest non-negative root, normal is the outward unit normal / plane normal; -1 only below the 1e-15 discriminant threshold or without a root. (5) bvh_equals_brute_partial: abstract tree traversal that prunes only boxes missed or entered no nearer than the current best returns the brute-force minimum (Warp's BVH builtins are not in /repo: abstract model). (6) _ray_bvh's primitive->geom map with the per-world stride ngeom+nflexgeom (repaired in /repo ae9ede3) denotes exactly the enabled geoms in every world; _orthogonal_basis of the normalised direction (repaired in 8617230) is an orthonormal pair orthogonal to any non-zero direction; ray_ellipsoid in the local frame (partial). tested only: float32 rounding; ray_capsule/cylinder/box/mesh/hfield geometry (no closed-form theorem: T-validation + mj_ray oracle, including rays that START INSIDE every closed geom type -- capsule cylindrical section and cap regions, cylinder, box, ellipsoid, sphere, cube/octahedron meshes -- and leave through every face / cap); that the real scene-BVH boxes cover the geoms (BVH-vs-brute oracle: open recorded defects for hfield, infinite planes, mesh back faces, geom groups)",
   "note": "trusted: Coq kernel; translator bin/translate.py (validated each run against the compiled Warp functions); Model/Ray.v hand model of the two kernels (validated each run against mjw.rays on random scenes inside Coq); tile_argmin modelled as first-minimum (CPU block size is 1); real-number axioms of Coq's Reals; mujoco.mj_ray as the differential oracle",
   "technique": "Rocq proof over hand model + functions machine-translated from the source (T), translation validation, kernel correspondence inside Coq, differential oracle against MuJoCo and BVH-vs-brute-force oracle",
   "engine": "coq",
@@ -68,7 +68,9 @@ def _geomray(rng, n, plane=False, kind=None):
   vec = vec / nv
   ax = rng.random(n) < 0.12
   e = np.zeros((n, 3))
-  e[np.arange(n), rng.integers(0, 3, n)] = rng.choice([-1.0, 1.0], n)
+  # planes: only along the normal -- a ray exactly parallel to an (infinite) plane sits ON the lvec[2] > -MJ_MINVAL
+  # discontinuity, where float32 vs binary64 rounding noise alone decides between a miss and a hit at ~1e7
+  e[np.arange(n), np.full(n, 2) if plane else rng.integers(0, 3, n)] = rng.choice([-1.0, 1.0], n)
   vec[ax] = np.einsum("nij,nj->ni", mat, e)[ax]
   if kind is not None:
     inside = rng.random(n) < 0.35
@@ -646,7 +648,7 @@ def run(res):
   def lap(what):
     vlib.log(f"[C34] {what}: {time.time() - t0:.1f}s")
 
-  ok, trs, failing = propkit.prove(res, PROPS, gen_names=["T_ray", "T_render_util"], required_funcs=REQ)
+  ok, trs, failing = propkit.prove(res, PROPS, gen_names=["T_bvh", "T_ray", "T_render_util"], required_funcs=REQ)
   lap("prove")
   tr = trs.get("T_ray")
   tbad, kbad = [], []
